@@ -179,6 +179,15 @@ func (e *Enc) havocMods(st *State, mods ModSet, label string) {
 	if e.relevant == nil {
 		return
 	}
+	// "objects that exist now keep their content" (the frame of a heap only written on fresh
+	// objects) is usable only if the references held by existing objects are known to denote
+	// existing objects: state that for the heap versions current at the call
+	for _, kind := range mods.m {
+		if kind == ModFresh {
+			e.emitBoundFacts(st)
+			break
+		}
+	}
 	names := make([]string, 0, len(e.relevant))
 	for k := range e.relevant {
 		names = append(names, k)
@@ -318,6 +327,19 @@ func (e *Enc) encodeCall(instr ssa.CallInstruction, v *ssa.Call, st *State) {
 			lab := cl.Label
 			if lab == "" {
 				lab = fmt.Sprint(i + 1)
+			}
+			// [caller=X]: the clause is part of a protocol that only the function(s) X take part in
+			scoped, inScope := false, false
+			for t := range cl.Tags {
+				if strings.HasPrefix(t, "pkg:caller:") {
+					scoped = true
+					if strings.Contains(e.key, strings.TrimPrefix(t, "pkg:caller:")) {
+						inScope = true
+					}
+				}
+			}
+			if scoped && !inScope {
+				continue
 			}
 			// one obligation per top-level conjunct: better diagnostics, smaller queries
 			parts := splitConj(cl.E)
